@@ -101,6 +101,21 @@ def build_with_history(spec, history):
         lb, ub = R.bounds
         R.upper_bound = ub
         R.lower_bound = lb
+    import zlib
+    h = zlib.crc32(json.dumps(spec, sort_keys=True).encode())
+    if h % 3 == 0 and len(m.reactions) and len(m.metabolites) > 1:
+        # stoichiometry edits that cancel exactly (decided from the content of the instance: the case stream stays as it was): a metabolite
+        # the reaction does not use is added and subtracted again, directly and through a context
+        R = m.reactions[h % len(m.reactions)]
+        others = [x for x in m.metabolites if x not in R.metabolites]
+        if others:
+            X = others[(h // 7) % len(others)]
+            if (h // 3) % 2 == 0:
+                R.add_metabolites({X: 2.0})
+                R.subtract_metabolites({X: 2.0})
+            else:
+                with m:
+                    R.add_metabolites({X: -1.0})
     return m
 
 
